@@ -10,10 +10,10 @@ import (
 	"fmt"
 	"hash"
 	"hash/fnv"
+	"sort"
 	"text/template"
 
 	"github.com/xeipuuv/gojsonschema"
-	"golang.org/x/exp/slices"
 
 	"github.com/hashicorp/go-multierror"
 
@@ -279,31 +279,49 @@ func (tp *ACLTemplatedPolicy) aclTemplatedPolicyRules(entMeta *acl.EnterpriseMet
 }
 
 // Deduplicate returns a new list of templated policies without duplicates.
-// compares values of template variables to ensure no duplicates
+// Templated policies with the same template name and the same variables are
+// merged into a single one that is valid in all of their datacenters (in every
+// datacenter as soon as one of them has no Datacenters), so that neither the
+// order of the list nor a scoped duplicate can take permissions away. The
+// elements of the receiver are never modified.
 func (tps ACLTemplatedPolicies) Deduplicate() ACLTemplatedPolicies {
-	list := make(map[string][]ACLTemplatedPolicyVariables)
+	type key struct {
+		name string
+		vars ACLTemplatedPolicyVariables
+	}
+	index := make(map[key]int)
 	var out ACLTemplatedPolicies
 
 	for _, tp := range tps {
-		// checks if template name already in the unique list
-		_, found := list[tp.TemplateName]
-		if !found {
-			list[tp.TemplateName] = make([]ACLTemplatedPolicyVariables, 0)
-		}
-		templateSchema := aclTemplatedPoliciesList[tp.TemplateName].Schema
-
+		k := key{name: tp.TemplateName}
 		// if schema is empty, template does not require variables
-		if templateSchema == "" {
-			if !found {
-				out = append(out, tp)
-			}
+		if aclTemplatedPoliciesList[tp.TemplateName].Schema != "" && tp.TemplateVariables != nil {
+			k.vars = *tp.TemplateVariables
+		}
+
+		i, found := index[k]
+		if !found {
+			index[k] = len(out)
+			out = append(out, tp)
 			continue
 		}
 
-		if !slices.Contains(list[tp.TemplateName], *tp.TemplateVariables) {
-			list[tp.TemplateName] = append(list[tp.TemplateName], *tp.TemplateVariables)
-			out = append(out, tp)
+		kept := out[i]
+		if len(kept.Datacenters) == 0 {
+			// already valid in every datacenter
+			continue
 		}
+		merged := kept.Clone()
+		if len(tp.Datacenters) == 0 {
+			merged.Datacenters = nil
+		} else {
+			a := stringslice.CloneStringSlice(kept.Datacenters)
+			b := stringslice.CloneStringSlice(tp.Datacenters)
+			sort.Strings(a)
+			sort.Strings(b)
+			merged.Datacenters = stringslice.MergeSorted(a, b)
+		}
+		out[i] = merged
 	}
 
 	return out
